@@ -53,6 +53,9 @@ type c16World struct {
 	// until the flag is cleared or the connection dies (scenario kill-while-tcp-awaits-response)
 	holdDial bool
 	lossKind int // kind chosen by the last killCurrent
+	// onConnected: what the application's connected callback does with the Client it is handed
+	// (nil = only logs), see the scenario connected-callback-uses-client
+	onConnected func(c Client, count int)
 }
 
 // c16TransportClosedError models what quic-go reports on a connection whose LOCAL socket failed
@@ -211,6 +214,9 @@ func (w *c16World) newRC(lazy bool) (Client, error) {
 		func(c Client, info *HandshakeInfo, count int) {
 			w.connected = append(w.connected, count)
 			w.ev("connected#%d", count)
+			if w.onConnected != nil {
+				w.onConnected(c, count)
+			}
 		}, lazy)
 }
 
@@ -671,6 +677,92 @@ func c16Scenarios() []*explore.Scenario {
 			}
 			if len(w.socks) != 2 || w.cfgCalls != 2 || fmt.Sprint(w.connected) != "[1 2]" {
 				e.Fail("reconnect after loss under a pending TCP(): configFunc=%d factory.New=%d connected=%v, want 2, 2, [1 2]", w.cfgCalls, len(w.socks), w.connected)
+			}
+			w.finalChecks(rc, false)
+			w.teardown(rc)
+		}},
+		{Name: "connected-callback-uses-client(start eager|lazy x use direct|awaited-thread|detached-thread x TCP|UDP)", Quick: explore.Bounds{P: 1}, Thorough: q2, Body: func(e *vsched.Exec) {
+			// Dimension: what the application's connected callback DOES with the Client it is handed
+			// (so far it only logged) x the start mode (cost-free choices "start", "callback-use",
+			// "callback-call"): on the first connection it calls TCP()/UDP() on the reconnectable
+			// client - directly, in a thread it waits for, or in a thread it leaves behind (what
+			// app/cmd/client.go does with its update check on count==1), the last one also with a
+			// lazy start. (Lazy x a callback that waits for the call is not driven: the wrapper holds
+			// its lock across the callback there, nothing in the property demands that to work.)
+			// Clauses: no connection was lost, so the configuration is evaluated once, one socket is
+			// obtained, the counts are [1] and one socket is open at the quiescent point; after a
+			// loss the failing call reports a closed-connection error and the next one reconnects
+			// (2 evaluations, 2 sockets, counts [1 2], only the newest socket open); nothing open
+			// after Close.
+			// Added after the independently seeded change C16-13 (reconnect() published the new
+			// connection in rc.client only after the connected callback had run: with an eager start
+			// a callback using its Client built a second connection - count 2 without a loss - and
+			// the first one then superseded it without closing it).
+			w := c16NewWorld(e)
+			w.serverUp()
+			lazy := e.Choose(2, vsched.KFree, "start") == 1
+			use := 2
+			if !lazy {
+				use = e.Choose(3, vsched.KFree, "callback-use")
+			}
+			kind := []string{"TCP", "UDP"}[e.Choose(2, vsched.KFree, "callback-call")]
+			w.ev("lazy=%v callback-use=%d callback-call=%s", lazy, use, kind)
+			var cbWG vsync.WaitGroup
+			var cbRes []*c16Res
+			w.onConnected = func(c Client, count int) {
+				if count != 1 {
+					return
+				}
+				do := func() { cbRes = append(cbRes, w.call(c, kind)) }
+				switch use {
+				case 0:
+					do()
+				case 1:
+					var wg vsync.WaitGroup
+					wg.Add(1)
+					vsched.GoNamed("callback-user", func() {
+						defer wg.Done()
+						do()
+					})
+					wg.Wait()
+				case 2:
+					cbWG.Add(1)
+					vsched.GoNamed("callback-user", func() {
+						defer cbWG.Done()
+						do()
+					})
+				}
+			}
+			rc, err := w.newRC(lazy)
+			if err != nil {
+				e.Fail("NewReconnectableClient(lazy=%v): %v", lazy, err)
+				return
+			}
+			first := w.call(rc, "TCP")
+			cbWG.Wait()
+			e.WaitIdle()
+			if first.Err != nil {
+				e.Fail("first call: %s (%v)", c16ErrClass(first.Err), first.Err)
+			}
+			if len(cbRes) != 1 || cbRes[0].Err != nil {
+				e.Fail("the connected callback's %s on the client it was handed: %v", kind, cbRes)
+			}
+			if len(w.socks) != 1 || w.cfgCalls != 1 || fmt.Sprint(w.connected) != "[1]" {
+				e.Fail("no connection was lost (lazy=%v, callback-use=%d): configFunc=%d factory.New=%d connected=%v, want 1, 1, [1]", lazy, use, w.cfgCalls, len(w.socks), w.connected)
+			}
+			w.finalChecks(rc, false)
+			if !w.killCurrent() {
+				e.Fail("harness: no live connection to kill")
+			}
+			e.WaitIdle()
+			if r := w.call(rc, "TCP"); c16ErrClass(r.Err) != "ClosedError" {
+				e.Fail("call after the connection was lost: got %s (%v), want a closed-connection error", c16ErrClass(r.Err), r.Err)
+			}
+			if r := w.call(rc, kind); r.Err != nil {
+				e.Fail("the call after the closed-connection error did not reconnect: %v", r.Err)
+			}
+			if len(w.socks) != 2 || w.cfgCalls != 2 || fmt.Sprint(w.connected) != "[1 2]" {
+				e.Fail("after one loss: configFunc=%d factory.New=%d connected=%v, want 2, 2, [1 2]", w.cfgCalls, len(w.socks), w.connected)
 			}
 			w.finalChecks(rc, false)
 			w.teardown(rc)
